@@ -61,7 +61,7 @@ def needs_escape(s):
 
 class Frames(Sub):
     name = "frames"
-    examples = {"quick": 1600, "thorough": 40000}
+    examples = {"quick": 1600, "thorough": 12800}
     shards = {"quick": 8, "thorough": 16}
     rule = RULE
 
@@ -151,7 +151,7 @@ def verifies(ev):
 
 class Verbatim(Sub):
     name = "verbatim"
-    examples = {"quick": 1600, "thorough": 50000}
+    examples = {"quick": 1600, "thorough": 12800}
     shards = {"quick": 10, "thorough": 16}
     rule = RULE
 
@@ -240,7 +240,7 @@ class Verbatim(Sub):
 
 class Serializer(Sub):
     name = "serializer"
-    examples = {"quick": 6000, "thorough": 100000}
+    examples = {"quick": 6000, "thorough": 48000}
     shards = {"quick": 4, "thorough": 16}
     rule = "event_as_json vs json of to_json_object on generated Event objects; non-trivial as above"
 
